@@ -1,6 +1,7 @@
 package main
 
 import (
+	"sort"
 	"fmt"
 	"strings"
 
@@ -13,13 +14,40 @@ func init() {
 		Decides: "(R38.1) one critical section: Make and PreferEmpty hold the maker's mutex from entry to return, and the lookup/creation helpers are called only from them; " +
 			"(R38.2) lookup before creation: a proposal is made only after the pool was asked for (point, local address, previous block) and answered not-found without an error; a found proposal is handed out unchanged; " +
 			"(R38.3) what is handed out is what was stored: the made proposal is built from the asked point, the local address, the asked previous block and the collected operations, signed with the local key under the maker's network id, stored in the pool, and returned only if signing and storing succeeded; " +
-			"(R38.4) the operations a new proposal lists are collected by the pool's de-duplicating OperationHashes (the rules R22.* of C22 are evaluated here too), and a valid proposal fact has no duplicate operation hash and no duplicate fact hash (both halves of every pair are checked by IsValidProposalFact, which ProposalFact.IsValid runs).; (R38.j) jobs handed to a worker read only captured variables that the submitter does not assign again (no job works on a later batch/slot than the one it was created for); (R38.c) the pool cleaner that may delete stored proposals lowers its reference height exactly by the configured positive depth (the clean-depth rules of C24)",
+			"(R38.4) the operations a new proposal lists are collected by the pool's de-duplicating OperationHashes (the rules R22.* of C22 are evaluated here too), and a valid proposal fact has no duplicate operation hash and no duplicate fact hash (both halves of every pair are checked by IsValidProposalFact, which ProposalFact.IsValid runs).; (R38.j) jobs handed to a worker read only captured variables that the submitter does not assign again (no job works on a later batch/slot than the one it was created for); (R38.c) the pool cleaner that may delete stored proposals lowers its reference height exactly by the configured positive depth (the clean-depth rules of C24); (R38.s) the key under which the request-proposal handler merges concurrent requests covers every header attribute its answer depends on (point, proposer, previous block); (R38.f) a stored proposal of a live point cannot be cleaned away (Make stores nothing beyond last+1, or the cleaner's reference height is not the table's own top) — violated today, known finding",
 		NotDecided: "that the pool's point index still answers after clean-up of old proposals (a re-asked position older than the retention makes a new proposal; Make refuses positions more than one block behind);  several ProposalMaker instances sharing one pool.",
 		Run:        runC38,
 	})
 }
 
 func runC38(c *Ctx) {
+	// R38.f: the maker's only memory of "already proposed" is the pool row, and the pool cleaner measures
+	// age from the highest stored proposal. Either no proposal is stored for a height beyond last+1, or
+	// the cleaner's reference does not come from the table itself; otherwise one stored far-point
+	// proposal lets the cleaner delete the live one and Make signs a second proposal for the point.
+	c.Rule("R38.f", "MustPass")
+	if mk := c.Need("isaac.(*ProposalMaker).Make"); mk != nil {
+		var calls []ssa.Instruction
+		calls = append(calls, c.CallsD(mk, "p.preferEmpty(*)")...)
+		calls = append(calls, c.CallsD(mk, "p.makeNew(*)")...)
+		last := "call(p.lastBlockMap)()#0.Manifest().Height()"
+		bounded := c.Floor(mk, "proposal creations in Make", len(calls), 1) &&
+			allOK(c.MustPass(mk, nil, calls, GCmp("point.Height()", "<=", "("+last+" + 1)"), GFalse("call(p.lastBlockMap)()#1")))
+		tableRelative := false
+		if cl := c.Need("isaac/database.(*TempPool).cleanByHeight"); cl != nil {
+			for _, f := range WithClosures(cl) {
+				for _, st := range c.StoresD(f, "&var:top") {
+					if c.DependsOnD(st.(*ssa.Store).Val, "isaacdatabase.heightFromKey(*)#0") {
+						tableRelative = true
+					}
+				}
+			}
+		}
+		c.Report(mk, "a stored proposal of a live point cannot be cleaned away: no proposal is stored beyond last+1, or the cleaner's reference height does not come from the proposal table", mk.Pos(),
+			bounded || !tableRelative, fmt.Sprintf("Make bounds the height from above: %v; cleaner reference taken from the table's own top: %v", bounded, tableRelative))
+	}
+	c.Rule("R38.s", "Dependence")
+	singleflightKeyRules(c, "isaac/network.QuicstreamHandlerRequestProposal", "isaac/network.boolEncodeQUICstreamHandler")
 	poolCleanDepthRules(c, "R38.c")
 	c.Rule("R38.j", "AsyncCapture")
 	c.AsyncCaptures(c.Need("isaac.ConcurrentRequestProposal"), "*.NewJob", 1)
@@ -159,4 +187,103 @@ func runC38(c *Ctx) {
 	if fn := c.Need("isaac.(ProposalFact).IsValid"); fn != nil {
 		c.MP(fn, "ProposalFact.IsValid runs the duplicate tests", c.SuccessReturns(fn), 1, GOk("base.IsValidProposalFact(fact)"))
 	}
+}
+
+// headerAttrs: the attributes of the request header a function (and the sibling closures it calls)
+// looks at — accessor calls `header.X()` and field reads `header.x`, normalised to lower case.
+func (c *Ctx) headerAttrs(fn *ssa.Function, seen map[*ssa.Function]bool) map[string]bool {
+	out := map[string]bool{}
+	if fn == nil || seen[fn] {
+		return out
+	}
+	seen[fn] = true
+	for _, f := range WithClosures(fn) {
+		for _, in := range allInstrs(f) {
+			if v, ok := in.(ssa.Value); ok {
+				d := c.D(v)
+				if strings.HasPrefix(d, "header.") && !strings.ContainsAny(d[len("header."):], ".[ ") {
+					a := strings.TrimSuffix(strings.ToLower(d[len("header."):]), "()")
+					if a != "" && !strings.Contains(a, "(") {
+						out[a] = true
+					}
+				}
+			}
+			// sibling closures called through a captured local (`getOrCreate := func...; getOrCreate(...)`)
+			if cc := callCommon(in); cc != nil && !cc.IsInvoke() {
+				if d := c.D(cc.Value); strings.HasPrefix(d, "func:") {
+					if cal := c.Func(strings.TrimPrefix(d, "func:")); cal != nil && cal.Parent() != nil {
+						for k := range c.headerAttrs(cal, seen) {
+							out[k] = true
+						}
+					}
+				}
+			}
+			// sibling closures called through their function value
+			var ops []*ssa.Value
+			for _, o := range in.Operands(ops) {
+				var cal *ssa.Function
+				switch y := (*o).(type) {
+				case *ssa.Function:
+					cal = y
+				case *ssa.MakeClosure:
+					cal, _ = y.Fn.(*ssa.Function)
+				}
+				if cal != nil && cal.Parent() != nil && cal.Parent() == fn.Parent() {
+					for k := range c.headerAttrs(cal, seen) {
+						out[k] = true
+					}
+				}
+			}
+		}
+	}
+	return out
+}
+
+// singleflightKeyRules: concurrent requests are merged by the key the first closure builds; every
+// attribute of the header the answering closure looks at must be part of that key, or a request
+// gets the answer computed for a different one.
+func singleflightKeyRules(c *Ctx, ctor string, wrappers ...string) {
+	fn := c.Need(ctor)
+	if fn == nil {
+		return
+	}
+	n := 0
+	for _, w := range wrappers {
+		for _, call := range c.CallsTo(fn, w) {
+			cc := callCommon(call)
+			if len(cc.Args) < 2 {
+				continue
+			}
+			toFn := func(v ssa.Value) *ssa.Function {
+				switch y := stripConv(v).(type) {
+				case *ssa.Function:
+					return y
+				case *ssa.MakeClosure:
+					f, _ := y.Fn.(*ssa.Function)
+					return f
+				}
+				return nil
+			}
+			kf, hf := toFn(cc.Args[0]), toFn(cc.Args[1])
+			if kf == nil || hf == nil {
+				c.Unresolved(fn, "singleflight key and handler closures", "not function literals")
+				continue
+			}
+			n++
+			key := c.headerAttrs(kf, map[*ssa.Function]bool{})
+			use := c.headerAttrs(hf, map[*ssa.Function]bool{})
+			var missing, all []string
+			for a := range use {
+				all = append(all, a)
+				if !key[a] {
+					missing = append(missing, a)
+				}
+			}
+			sort.Strings(missing)
+			sort.Strings(all)
+			c.Report(fn, "the merge key of concurrent requests covers every header attribute the answer depends on", call.Pos(), len(missing) == 0,
+				"answer reads: "+strings.Join(all, ", ")+"; missing in the key: "+strings.Join(missing, ", "))
+		}
+	}
+	c.Floor(fn, "merged handlers", n, 1)
 }
